@@ -390,6 +390,18 @@ def correspond_pyeval(chk, datas):
                 mism.append({"hex": datas[i].hex(), "side": "pyeval", "real": real[:400], "model": m[:400]})
             else:
                 st["agree-ERR"] += 1
+        elif m.startswith("ERR Unmodelled") and mvm.startswith("OK "):
+            # since C05_eval_agrees covers every statement form fickling emits, the evaluator may only
+            # decline where the reference-VM model itself declines (ill-typed programs)
+            st["compared"] += 1
+            mism.append({"hex": datas[i].hex(), "side": "pyeval", "real": real[:400], "model": m[:400],
+                         "why": "evaluator declines a program the reference-VM model accepts"})
+        elif m.startswith("ERR Fuel") and real != "SKIP":
+            st["compared"] += 1
+            mism.append({"hex": datas[i].hex(), "side": "pyeval", "real": real[:400], "model": m[:400],
+                         "why": "evaluator out of fuel on a program the real exec handles"})
         else:
-            st["model-declined"] += 1       # FK-ERR / NORESULT / Unmodelled / Fuel
+            # FK-ERR (no decompiled program) / NORESULT / Unmodelled where RefVM declines too /
+            # Fuel on a cyclic value (real: RecursionError)
+            st["model-declined"] += 1
     return mism, st
